@@ -421,6 +421,7 @@ def run(ch, tr, st):
     srs_mod.mp = simmp
     fdepsd_mod.mp = simmp
     results = []
+    held = []
     try:
         try:
             for ci, (target, build, par, desc, est_lines, base, freq) in enumerate(cases):
@@ -432,6 +433,10 @@ def run(ch, tr, st):
                 outcome = compare(target, ser, pr, target if ci == 0 else f"{target}(call {ci + 1} of one parent)")
                 st.probe("outcome_" + outcome)
                 results.append((target, par, ser, p0, c0))
+                if pr[0] == "ok":
+                    # what the caller was handed must still be that when the parent has made
+                    # its later calls (a returned history may be a view of shared memory)
+                    held.append((ci, target, pr[1], {k: np.array(v, copy=True) for k, v in _flatten(target, pr[1]).items() if v.dtype != object}))
                 _account(st, sched, cfg, par, p0, c0)
                 if ser[0] == "ok":
                     for k, v in _flatten(target, ser[1]).items():
@@ -443,6 +448,16 @@ def run(ch, tr, st):
             sched.shutdown()
     finally:
         srs_mod.mp, fdepsd_mod.mp = real
+    if len(cases) > 1:
+        for ci, target, out, snap in held[:-1]:
+            now = _flatten(target, out)
+            for k, v in snap.items():
+                if k not in now or now[k].shape != v.shape or not np.array_equal(now[k], v, equal_nan=(v.dtype.kind in "fc")):
+                    raise Violation(
+                        "returned_result_changed_later", f"{target}(call {ci + 1} of one parent):{k}",
+                        reason="an array returned by an earlier parallel call was modified by a later call of the same parent process",
+                    )
+        st.probe("earlier_results_rechecked")
     # The parent's own view of the worker globals normally stays as it was (the workers'
     # assignments live in their images; tests/test_simmp.py checks that isolation).  It is
     # NOT an error if it changed: code under test may legitimately run the initializer in
